@@ -6,8 +6,10 @@
   A stream records a pipeline (`ifilter`, `imap`, `islice`) next to its source rows, a template
   and a nesting level; `__iter__` applies all filters to the source rows, then all maps, then all
   slices.  `__getitem__` copies the stream (`copy.copy(self)`: lists are copied, the template is
-  copied *keeping its visible keys* — repaired code, `copy_template`) and appends to one of the
-  three lists, per key kind.  The functions below follow the Python case by case; Python closures
+  copied *keeping its visible keys* — repaired code, `copy_template`; `root`, the template of the
+  source rows, is shared) and extends one of the three lists, per key kind: selections and slices
+  are appended; a clause is resolved against `root` (repaired code), its filter is appended to
+  `ifilter` and its map is inserted at the FRONT of `imap` (it acts on the source row).  The functions below follow the Python case by case; Python closures
   (`deep_map(itemgetter(col), level)`, the row-projecting lambda, the `f`/`m` pair of
   `build_filter`, `fix_nested(template)`) are represented by the data they close over.
 
@@ -71,6 +73,7 @@ deriving DecidableEq, Repr
 
 structure Stream (A : Type) where
   src : List (List A)
+  root : SeqT                -- the template of the source rows (`self.root`), fixed at construction
   template : Tmpl
   ifilter : List (Filt A)
   imap : List MapF
@@ -95,11 +98,11 @@ deriving DecidableEq, Repr, Inhabited
 
 /-- `IterData(stream, template)`: `imap or [fix_nested(template)]` -/
 def mkIterData {A} (src : List (List A)) (t : SeqT) : Stream A :=
-  ⟨src, .seq t, [], [.fixNested t.visible.length], [], 0⟩
+  ⟨src, t, .seq t, [], [.fixNested t.visible.length], [], 0⟩
 
 /-- `CSVData(filepath, template)`: `imap or []`; the rows are what `csv.reader` yields -/
 def mkCSVData {A} (src : List (List A)) (t : SeqT) : Stream A :=
-  ⟨src, .seq t, [], [], [], 0⟩
+  ⟨src, t, .seq t, [], [], [], 0⟩
 
 /-! ### `__iter__` -/
 
@@ -211,25 +214,25 @@ def indexOf? (ks : List Name) (k : Name) : Option Nat :=
   let i := ks.idxOf k
   if i < ks.length then some i else none
 
-def buildFilter {A} (lit : List Char → Option A) (c : Cond) : Tmpl → Except Err (Filt A × MapF)
-  | .base _ => .error .ceError            -- `target._all_keys()` fails inside the `try`
-  | .seq t =>
-    -- id1 = id1[len(template.id) + 1:]; one loop round per token of id1.split(".")
-    match splitOnChar '.' (c.id1.drop (t.id.length + 1)) with
-    | [token] =>
-      match indexOf? t.all token with
-      | none => .error .ceError
-      | some col =>
-        -- parent1 = template.id (the parent of the last token)
-        if rsplitHead c.id2 = t.id then
-          match indexOf? t.all (lastTok c.id2) with
-          | none => .error .valueError    -- `keys.index(...)` outside the `try`
-          | some col2 => .ok (⟨col, c.op, .col col2⟩, .ident)
-        else
-          match lit c.id2 with
-          | none => .error .ceError
-          | some v => .ok (⟨col, c.op, .lit v⟩, .ident)
-    | _ => .error .ceError                -- a second token meets a BaseType: AttributeError in the `try`
+/-- `build_filter(expression, template)` for a flat sequence `t` (`__getitem__` passes `self.root`);
+    only `t.id` and `t._all_keys()` are read -/
+def buildFilter {A} (lit : List Char → Option A) (c : Cond) (t : SeqT) : Except Err (Filt A × MapF) :=
+  -- id1 = id1[len(template.id) + 1:]; one loop round per token of id1.split(".")
+  match splitOnChar '.' (c.id1.drop (t.id.length + 1)) with
+  | [token] =>
+    match indexOf? t.all token with
+    | none => .error .ceError
+    | some col =>
+      -- parent1 = template.id (the parent of the last token)
+      if rsplitHead c.id2 = t.id then
+        match indexOf? t.all (lastTok c.id2) with
+        | none => .error .valueError    -- `keys.index(...)` outside the `try`
+        | some col2 => .ok (⟨col, c.op, .col col2⟩, .ident)
+      else
+        match lit c.id2 with
+        | none => .error .ceError
+        | some v => .ok (⟨col, c.op, .lit v⟩, .ident)
+  | _ => .error .ceError                -- a second token meets a BaseType: AttributeError in the `try`
 
 /-! ### `__getitem__` -/
 
@@ -255,8 +258,9 @@ def getitem {A} (lit : List Char → Option A) (s : Stream A) : Key → Except E
   | .int i => .ok { s with islice := s.islice ++ [⟨some i, some (i + 1), none⟩] }
   | .slice sl => .ok { s with islice := s.islice ++ [sl] }
   | .cond c => do
-    let (f, m) ← buildFilter lit c s.template
-    pure { s with ifilter := s.ifilter ++ [f], imap := s.imap ++ [m] }
+    -- `f, m = build_filter(key, self.root)`; `out.ifilter.append(f)`; `out.imap.insert(0, m)`
+    let (f, m) ← buildFilter lit c s.root
+    pure { s with ifilter := s.ifilter ++ [f], imap := m :: s.imap }
 
 /-- a program: keys applied left to right -/
 def chain {A} (lit : List Char → Option A) : Stream A → List Key → Except Err (Stream A)
@@ -321,9 +325,7 @@ def refStep {A} (lit : List Char → Option A) (id : Name) (all : List Name) (st
     | .column _ => none
   | .int i => some { st with slices := st.slices ++ [⟨some i, some (i + 1), none⟩] }
   | .slice sl => some { st with slices := st.slices ++ [sl] }
-  | .cond c => match st.layout with
-    | .table _ => (resolve lit id all c).map fun rc => { st with conds := st.conds ++ [rc] }
-    | .column _ => none
+  | .cond c => (resolve lit id all c).map fun rc => { st with conds := st.conds ++ [rc] }   -- on every layout
 
 def refRun {A} (lit : List Char → Option A) (id : Name) (all : List Name) : Ref A → List Key → Option (Ref A)
   | st, [] => some st
